@@ -60,7 +60,7 @@ STEPS = [1, 2, 3]
 SEEDS = [0, 1, 2]
 RATE = -0.5  # du/dt = RATE * u for the harness equations
 PDE_RATES = [-0.5, -0.25, -0.75]  # per field for the `PDE` class
-VARS = ["a", "b", "c"]
+VARS = ["u", "c", "b"]  # deliberately NOT in alphabetical order: per-field noise follows the order of the fields
 ITER = {"maxerror": 1e-15, "maxiter": 1000}
 TOL = 1e-12
 V0 = 0.2  # var(u) = V0 u^2
@@ -143,6 +143,7 @@ def noise_specs(kind: str, ranks: list, dim: int, tier: str) -> list:
         if coll:
             out.append({"kind": "field-list", "cls": "pde", "noise": FIELD_LIST[:nf]})
             out.append({"kind": "field-dict", "cls": "pde", "noise": {VARS[0]: 0.4}})  # others: 0
+            out.append({"kind": "field-dict2", "cls": "pde", "noise": {VARS[1]: 0.2, VARS[0]: 0.4}})  # given in another order
     for k, form in FD_FORMS.items():
         out.append({"kind": k, "cls": "mulnodiff" if k.endswith("nodiff") else "mul", "noise": form["g2"], **form})
     out.append({"kind": "tiny", "cls": "sde", "noise": 1e-15})
